@@ -3,7 +3,7 @@ import os
 import verifylib as V
 
 ASSUME = [
-    "partial claim (DESIGN.md C05/§6): decided are the containment protocol of a running pipeline (fault in any node of a 3-node chain at any of 4 moments, next to a bystander task) and the define-never-crashes law over eight enumerated families (token sequences, byte strings up to the length bound alone and in lexer contexts, vars/template/task documents through the HTTP handlers, mutated pipeline/lambda JSON, seeded corpus mutations); byte strings beyond the bound and 'all UDF byte streams' are not decided here",
+    "partial claim (DESIGN.md C05/§6): decided are the containment protocol of a running pipeline (fault in any node of a 3-node chain at any of 4 moments, next to a bystander task) and the define-never-crashes law over nine enumerated families (token sequences, byte strings up to the length bound alone and in lexer contexts, vars/template/task documents through the HTTP handlers, mutated pipeline/lambda JSON, seeded corpus mutations, line-protocol byte strings through the /write handler into running tasks); byte strings beyond the bound and 'all UDF byte streams' are not decided here",
     "every family of definitions runs in its own child process; a child that dies is reported as a DefineBatch line with panics = 1 naming the input it was processing (read from a shared file mapping)",
     "injected panics use the verif hooks node.run / edge.emit; point errors and node errors use natural triggers (integer division by zero, failing alert id template)",
     "a stop that does not return within 30 s or a pipeline goroutine alive 10 s after the stop is taken as a liveness violation; the scenarios need milliseconds",
